@@ -99,11 +99,11 @@ struct C10 : Scenario {
 
     Json generate(Rng& rng, const std::string& tier, std::uint64_t run) override {
         Json p = Json::object();
-        const bool runkind = run % 4 == 3;
+        const bool runkind = mix64(run ^ 0xC10) % 4 == 0;      // not run % 4: a worker handles every W-th run index and must see both kinds
         p["scenario"] = runkind ? "S-RUN" : "S-SMRY"; p["kind"] = runkind ? "run" : "smry";
         if (!runkind) {
             // vector count: dense near multiples of 1000
-            std::uint64_t k = run / 4 * 3 + run % 4;
+            std::uint64_t k = run;
             int nv;
             if (k % 3 == 0) { int base = static_cast<int>(1000 * (1 + (k / 3) % 4)); static const int off[] = {-3, -2, -1, 0, 1, 2, 3}; nv = base + off[(k / 12) % 7]; }
             else if (k % 3 == 1) nv = static_cast<int>(rng.range(1, 60));
